@@ -11,7 +11,7 @@ RULE = ('one generated chart + start state + event script is run under every con
         'Every fifth case instead runs an active object with posters racing its thread under detsched, once with live output off and with each live flag combination on: the set of dispatched events and thread survival must be the same. '
         'distinct_nontrivial = distinct (configuration, number of transitions in the script, max depth) tuples')
 CASES = {'quick': 400, 'thorough': 30000}
-BUDGET = {'quick': 60, 'thorough': 300}
+BUDGET = {'quick': 150, 'thorough': 300}
 REQUIRE = {'configs_compared': 2000, 'ao_configs_compared': 200, 'transitions': 500, 'concurrent_live_cases': 50}
 ASSUME = ['decoration is all-or-none per chart', 'the plain un-spied run is the reference (tied to the model by C01-C03)']
 CONFIGS = hosts.all_configs()
